@@ -7,16 +7,16 @@ import ChalkModel.Lemmas.FixedPointSemC
 
 namespace Chalk.FixedPoint.Mix
 open Chalk.FixedPoint.Cyc (JE JA MinLe InCache InGraph Def Undef flagAt StackExt stackGoals nodup_index
-  def_or_undef getElem?_lt_length getElem?_prefix)
+  def_or_undef getElem?_lt_length getElem?_prefix QuietSt)
 
 section
-variable {inst : Instance} {P : Nat → Prop} {dom : List Nat} {lvl : Nat → Nat}
+variable {inst : Instance} {P : Nat → Prop} {dom : List Nat} {lvl : Nat → Nat} {fx : Bool}
 
-theorem Inv.index_inj {s : St} (hi : Inv inst P dom lvl s) {i j : Nat} {a b : Node}
+theorem Inv.index_inj {s : St} (hi : Inv inst P dom lvl fx s) {i j : Nat} {a b : Node}
     (h1 : s.graph[i]? = some a) (h2 : s.graph[j]? = some b) (h : a.goal = b.goal) : i = j :=
   nodup_index (·.goal) s.graph i j a b hi.nodup h1 h2 h
 
-theorem Inv.defFun {s : St} (hi : Inv inst P dom lvl s) {k : Nat} {v v' : V}
+theorem Inv.defFun {s : St} (hi : Inv inst P dom lvl fx s) {k : Nat} {v v' : V}
     (h1 : Def s k v) (h2 : Def s k v') : v = v' := by
   cases h1 with
   | inl h1 =>
@@ -45,26 +45,51 @@ theorem Inv.defFun {s : St} (hi : Inv inst P dom lvl s) {k : Nat} {v v' : V}
       cases hn'
       exact hv.symm.trans hv'
 
-/-- a value of the state that is not the optimistic one is the true answer -/
-theorem Inv.defHolds {s : St} (hi : Inv inst P dom lvl s) {k : Nat} {v : V} (h : Def s k v)
-    (hne : v ≠ topOf inst k) : Holds P v k := by
+/-- the value of a known goal is one of its two definite values or `ambig` -/
+theorem Inv.defVal {s : St} (hi : Inv inst P dom lvl fx s) {k : Nat} {v : V} (h : Def s k v) :
+    v = topOf inst k ∨ v = botOf inst k ∨ v = .ambig := by
   cases h with
-  | inl h => exact hi.cacheOK k v h
+  | inl hc =>
+    have hh := hi.cacheOK k v hc
+    unfold topOf initialValue botOf
+    cases v <;> cases hcx : inst.coind k <;> simp_all [Holds]
+  | inr hg =>
+    obtain ⟨i, n, hn, hgo, hvn⟩ := hg
+    subst hgo; subst hvn
+    exact hi.val i n hn
+
+/-- a pessimistic value of the state is the true answer -/
+theorem Inv.defHolds {s : St} (hi : Inv inst P dom lvl fx s) {k : Nat} (h : Def s k (botOf inst k)) :
+    Holds P (botOf inst k) k := by
+  cases h with
+  | inl h => exact hi.cacheOK k _ h
   | inr h =>
     obtain ⟨i, n, hn, hg, hv⟩ := h
-    subst hg; subst hv
-    cases hi.val i n hn with
-    | inl e => exact absurd e hne
-    | inr e => exact hi.approx i n hn e
+    subst hg
+    rw [← hv]
+    exact hi.approx i n hn hv
 
-theorem Inv.defTop {s : St} (hi : Inv inst P dom lvl s) {k : Nat} {v : V} (h : Def s k v)
-    (ht : Holds P (topOf inst k) k) : v = topOf inst k := by
-  apply Classical.byContradiction
-  intro hne
-  exact hne ((hi.defHolds h hne).unique ht)
+theorem Inv.defTop {s : St} (hi : Inv inst P dom lvl fx s) {k : Nat} {v : V} (h : Def s k v)
+    (ht : Holds P (topOf inst k) k) : v = topOf inst k ∨ v = .ambig := by
+  rcases hi.defVal h with e | e | e
+  · exact Or.inl e
+  · rw [e] at h
+    have := hi.defHolds h
+    exact absurd (this.unique ht) (topOf_ne_botOf inst k).symm
+  · exact Or.inr e
+
+/-- the state holds `x` optimistically: at its optimistic value, or as `ambig` -/
+def DefOpt (inst : Instance) (s : St) (x : Nat) : Prop := Def s x (topOf inst x) ∨ Def s x .ambig
+
+theorem Inv.defOpt_of_ne_bot {s : St} (hi : Inv inst P dom lvl fx s) {k : Nat} {v : V} (h : Def s k v)
+    (hne : v ≠ botOf inst k) : DefOpt inst s k := by
+  rcases hi.defVal h with e | e | e
+  · rw [e] at h; exact Or.inl h
+  · exact absurd e hne
+  · rw [e] at h; exact Or.inr h
 
 theorem InG.unfold {s : St} {x : Nat} (h : InG inst P s x) :
-    Def s x (topOf inst x) ∨
+    DefOpt inst s x ∨
       (Undef s x ∧ JV inst (topOf inst x) (Opt inst P (InG inst P s) (topOf inst x)) x) := by
   obtain ⟨S, hS, hx⟩ := h
   cases hS x hx with
@@ -72,7 +97,7 @@ theorem InG.unfold {s : St} {x : Nat} (h : InG inst P s x) :
   | inr h => exact Or.inr ⟨h.1, JV.mono (fun j hj => hj.mono (fun j' hj' => ⟨S, hS, hj'⟩)) h.2⟩
 
 theorem InG.coind {s : St} (S : Nat → Prop)
-    (hS : ∀ x, S x → Def s x (topOf inst x) ∨
+    (hS : ∀ x, S x → DefOpt inst s x ∨
       (Undef s x ∧ JV inst (topOf inst x) (Opt inst P (fun j => S j ∨ InG inst P s j) (topOf inst x)) x)) :
     ∀ k, S k → InG inst P s k := by
   intro k hk
@@ -86,96 +111,66 @@ theorem InG.coind {s : St} (S : Nat → Prop)
     | inr h => exact Or.inr ⟨h.1, JV.mono (fun j hj => hj.mono (fun j' hj' => Or.inr hj')) h.2⟩
 
 theorem InG.of_def_top {s : St} {j : Nat} (h : Def s j (topOf inst j)) : InG inst P s j :=
-  ⟨fun x => Def s x (topOf inst x), fun _ hx => Or.inl hx, h⟩
+  ⟨fun x => Def s x (topOf inst x), fun _ hx => Or.inl (Or.inl hx), h⟩
 
 /-- the true optimistic answers lie inside every relative fixed point -/
-theorem Inv.tgt_sub_InG (hP : Strat inst P) {s : St} (hi : Inv inst P dom lvl s) {k : Nat}
+theorem Inv.tgt_sub_InG (hP : Strat inst P) {s : St} (hi : Inv inst P dom lvl fx s) {k : Nat}
     (h : Holds P (topOf inst k) k) : InG inst P s k := by
   refine InG.coind (fun x => Holds P (topOf inst x) x) ?_ k h
   intro x hx
   cases def_or_undef s x with
   | inl hd =>
     obtain ⟨v, hv⟩ := hd
-    have := hi.defTop hv hx
-    rw [this] at hv
-    exact Or.inl hv
+    left
+    cases hi.defTop hv hx with
+    | inl e => rw [e] at hv; exact Or.inl hv
+    | inr e => rw [e] at hv; exact Or.inr hv
   | inr hu => exact Or.inr ⟨hu, JV.mono (fun j hj => Or.inr hj) (hP.unfold hx)⟩
 
 /-- extending the valuation consistently keeps the relative fixed point -/
-theorem InG.mono {s s' : St} (hi' : Inv inst P dom lvl s') (hext : ∀ k v, Def s k v → Def s' k v)
+theorem InG.mono {s s' : St} (hi' : Inv inst P dom lvl fx s') (hext : ∀ k v, Def s k v → Def s' k v)
     (hlow : ∀ k, Undef s k → Def s' k (botOf inst k) → ¬ InG inst P s k) {k : Nat} (h : InG inst P s k) :
     InG inst P s' k := by
   refine InG.coind (InG inst P s) ?_ k h
   intro x hx
   cases hx.unfold with
-  | inl hd => exact Or.inl (hext x _ hd)
+  | inl hd => exact Or.inl (hd.imp (hext x _) (hext x _))
   | inr hu =>
     cases def_or_undef s' x with
     | inl hd =>
       obtain ⟨v, hv⟩ := hd
-      by_cases e : v = topOf inst x
-      · rw [e] at hv; exact Or.inl hv
-      · have e' : v = botOf inst x := by
-          cases hv with
-          | inl hc =>
-            -- a cache entry: one of the two definite values
-            have hh := hi'.cacheOK x v hc
-            unfold topOf initialValue at e
-            unfold botOf
-            cases v <;> cases hcx : inst.coind x <;> simp_all [Holds]
-          | inr hg =>
-            obtain ⟨i, n, hn, hgo, hvn⟩ := hg
-            subst hgo; subst hvn
-            cases hi'.val i n hn with
-            | inl e2 => exact absurd e2 e
-            | inr e2 => exact e2
-        rw [e'] at hv
-        exact absurd hx (hlow x hu.1 hv)
+      by_cases e : v = botOf inst x
+      · rw [e] at hv; exact absurd hx (hlow x hu.1 hv)
+      · exact Or.inl (hi'.defOpt_of_ne_bot hv e)
     | inr hu' => exact Or.inr ⟨hu', JV.mono (fun j hj => hj.mono (fun j' hj' => Or.inl hj')) hu.2⟩
 
 /-! ### frame -/
 
 theorem Step.refl (s : St) (lb : Min) : Step inst P s s lb :=
   ⟨⟨[], by simp, fun n hn => by cases hn⟩, StackExt.refl _, fun _ _ h => h, fun _ _ h => h,
-   fun k hu hd => absurd hd (hu _), rfl⟩
+   fun k hu hd => absurd hd (hu _), rfl, id, fun q => ⟨q, id⟩⟩
 
 theorem Step.weaken {s s' : St} {lb lb' : Min} (h : Step inst P s s' lb) (hle : MinLe lb' lb) :
     Step inst P s s' lb' := by
   obtain ⟨new, hg, hn⟩ := h.graph
   exact ⟨⟨new, hg, fun n hm => ⟨(hn n hm).1, hle.trans (hn n hm).2⟩⟩, h.stack, h.cacheExt, h.ext, h.low,
-    h.cacheMode⟩
+    h.cacheMode, h.intr, h.quiet⟩
 
-theorem Step.inG {s s' : St} {lb : Min} (h : Step inst P s s' lb) (hi' : Inv inst P dom lvl s') {k : Nat}
+theorem Step.inG {s s' : St} {lb : Min} (h : Step inst P s s' lb) (hi' : Inv inst P dom lvl fx s') {k : Nat}
     (hk : InG inst P s k) : InG inst P s' k :=
   InG.mono hi' h.ext h.low hk
 
-/-- the value of a known goal is one of its two definite values; if it is the pessimistic one … -/
-theorem Inv.defVal {s : St} (hi : Inv inst P dom lvl s) {k : Nat} {v : V} (h : Def s k v) :
-    v = topOf inst k ∨ v = botOf inst k := by
-  by_cases e : v = topOf inst k
-  · exact Or.inl e
-  · right
-    cases h with
-    | inl hc =>
-      have hh := hi.cacheOK k v hc
-      unfold topOf initialValue at e
-      unfold botOf
-      cases v <;> cases hcx : inst.coind k <;> simp_all [Holds]
-    | inr hg =>
-      obtain ⟨i, n, hn, hgo, hvn⟩ := hg
-      subst hgo; subst hvn
-      cases hi.val i n hn with
-      | inl e2 => exact absurd e2 e
-      | inr e2 => exact e2
-
 theorem Step.trans {s s' s'' : St} {m1 m2 : Min} (h1 : Step inst P s s' m1) (h2 : Step inst P s' s'' m2)
-    (hle : MinLe m2 m1) (hi' : Inv inst P dom lvl s') (hi'' : Inv inst P dom lvl s'') :
+    (hle : MinLe m2 m1) (hi' : Inv inst P dom lvl fx s') (hi'' : Inv inst P dom lvl fx s'') :
     Step inst P s s'' m2 := by
   obtain ⟨new1, hg1, hn1⟩ := h1.graph
   obtain ⟨new2, hg2, hn2⟩ := h2.graph
   refine ⟨⟨new1 ++ new2, by rw [hg2, hg1, List.append_assoc], ?_⟩, h1.stack.trans h2.stack,
     fun k v h => h2.cacheExt k v (h1.cacheExt k v h), fun k v h => h2.ext k v (h1.ext k v h), ?_,
-    h2.cacheMode.trans h1.cacheMode⟩
+    h2.cacheMode.trans h1.cacheMode, fun e => h2.intr (h1.intr e), fun q => by
+      obtain ⟨q1, i1⟩ := h1.quiet q
+      obtain ⟨q2, i2⟩ := h2.quiet q1
+      exact ⟨q2, fun e => i2 (i1 e)⟩⟩
   · intro n hn
     cases List.mem_append.mp hn with
     | inl h => exact ⟨(hn1 n h).1, hle.trans (hn1 n h).2⟩
@@ -200,16 +195,22 @@ theorem Wit.step {s s' : St} {lb lb' m : Min} {v : V} {j : Nat} (h : Wit inst P 
       fun d hd => hs.stack.flag (hf d hd)⟩
 
 theorem Fact.step {s0 s1 s' s'' : St} {m0 m' m'' : Min} {g : Nat} {v : V}
-    (h : Fact inst P s1 s' m' g v) (h0 : Step inst P s0 s1 m0) (hi1 : Inv inst P dom lvl s1)
+    (h : Fact inst P s1 s' m' g v) (h0 : Step inst P s0 s1 m0) (hi1 : Inv inst P dom lvl fx s1)
     (hs : Step inst P s' s'' m'') (hle : MinLe m'' m') : Fact inst P s0 s'' m'' g v := by
   cases h with
   | inl h => exact Or.inl ⟨h.1, h.2.step hs hle⟩
-  | inr h => exact Or.inr ⟨h.1, h.2.1, fun hin => h.2.2 (h0.inG hi1 hin)⟩
+  | inr h =>
+    cases h with
+    | inl h => exact Or.inr (Or.inl ⟨h.1, h.2.1, fun hin => h.2.2 (h0.inG hi1 hin)⟩)
+    | inr h => exact Or.inr (Or.inr ⟨h.1, hs.intr h.2⟩)
 
-theorem Fact.ne_ambig {s0 s' : St} {m' : Min} {g : Nat} (h : Fact inst P s0 s' m' g .ambig) : False := by
-  cases h with
-  | inl h => exact topOf_ne_ambig inst g h.1.symm
-  | inr h => exact botOf_ne_ambig inst g h.1.symm
+/-- an ambiguous answer means that solving was interrupted -/
+theorem Fact.ambig {s0 s' : St} {m' : Min} {g : Nat} (h : Fact inst P s0 s' m' g .ambig) :
+    s'.interrupted = true := by
+  rcases h with h | h | h
+  · exact absurd h.1.symm (topOf_ne_ambig inst g)
+  · exact absurd h.1.symm (botOf_ne_ambig inst g)
+  · exact h.2
 
 /-- stack nodes are kept by a step -/
 theorem Step.stackNode {s s' : St} {m : Min} (hs : Step inst P s s' m) {i : Nat} {n : Node} {d : Nat}
